@@ -1,4 +1,5 @@
 import LeptosModel.Model.Reactive
+import LeptosModel.Proofs.ReactiveTop
 /-!
 # C09 — computations run only when something they read has changed
 
@@ -34,5 +35,40 @@ theorem C09_run_justified_full_false : ¬ C09_run_justified_full := by
   have h2 := C09_effect_double_run_witness.2.1
   rw [h1] at h2
   exact absurd h2 (by decide)
+
+/-! ## memos: every run is justified
+
+For programs without effects (signals and memos only) and tracked reads only, no memo body
+ever runs unless it has never run or one of the inputs tracked by its previous run has a new
+version.  (`bodiesTracked` is the same function as `progTracked` of `Theorems/C01.lean`.) -/
+
+theorem unjustIn_false_iff (log : List Ev) : unjustIn log = false ↔ ∀ i, Ev.unjust i ∉ log := by
+  unfold unjustIn
+  constructor
+  · intro h i hi
+    have : (log.any fun e => match e with | .unjust _ => true | _ => false) = true :=
+      List.any_eq_true.2 ⟨_, hi, rfl⟩
+    rw [h] at this; cases this
+  · intro h
+    cases hb : (log.any fun e => match e with | .unjust _ => true | _ => false) with
+    | false => rfl
+    | true =>
+      obtain ⟨e, he, hm⟩ := List.any_eq_true.1 hb
+      cases e with
+      | unjust i => exact absurd he (h i)
+      | _ => simp at hm
+
+theorem C09_memo_run_justified :
+    ∀ (p : Prog) (ops : List Op), WF p = true → noEff p = true → bodiesTracked p = true →
+      unjustIn (run p ops).log = false := by
+  intro p ops hwf hne ht
+  exact (unjustIn_false_iff _).2 (no_unjust_noeff hwf (memoOK_of_wf hwf ht) hne ops)
+
+/-- non-vacuity: the memo part of `c09Prog` with a write and re-reads; memo 2 runs twice, justified -/
+example :
+    let p : Prog := [.sig 0, .memo (.rd true 0), .memo (.add (.rd true 0) (.rd true 1))]
+    let ops : List Op := [.read 2, .set 0 1, .read 2, .read 1, .set 0 1, .read 2]
+    WF p = true ∧ noEff p = true ∧ bodiesTracked p = true ∧ ((run p ops).get 2).runs = 3 ∧
+    unjustIn (run p ops).log = false := by decide +kernel
 
 end Leptos.Reactive
